@@ -231,13 +231,20 @@ pub fn check_history(cfg: Cfg, h: &[Ev], e: &mut Eng) -> u64 {
                             Some((tp, p)) => {
                                 nontrivial = true;
                                 let dt32 = (t - tp) as f32 / 1_000_000_000.0;
-                                let lam32 = 1.0f32 - backend_powf(1.0 - s, dt32);
+                                // (the build's own power function; a back end that itself panics on these
+                                // arguments - micromath with overflow checks on, at base 0 - leaves nothing to judge)
+                                let pws = (backend_powf_checked(1.0 - s, dt32), backend_powf_checked(1.0 - s, dt32 * (1.0 - 2.0 * f32::EPSILON)), backend_powf_checked(1.0 - s, dt32 * (1.0 + 2.0 * f32::EPSILON)));
+                                let (pw0, pw_lo, pw_hi) = match pws {
+                                    (Some(a), Some(b), Some(c)) => (a, b, c),
+                                    _ => return n as u64,
+                                };
+                                let lam32 = 1.0f32 - pw0;
                                 let lam = lam32 as f64;
                                 let reference = p as f64 * (1.0 - lam) + *v as f64 * lam;
                                 let scale = (p.abs() + v.abs()) as f64;
                                 // dt may legitimately be rounded differently by one ulp: allow the induced change of lambda
-                                let dt_lo = backend_powf(1.0 - s, dt32 * (1.0 - 2.0 * f32::EPSILON)) as f64;
-                                let dt_hi = backend_powf(1.0 - s, dt32 * (1.0 + 2.0 * f32::EPSILON)) as f64;
+                                let dt_lo = pw_lo as f64;
+                                let dt_hi = pw_hi as f64;
                                 let lam_slack = (dt_lo - dt_hi).abs() + 4.0 * EPS;
                                 let tol = 4.0 * EPS * scale + lam_slack * (p as f64 - *v as f64).abs();
                                 if !((got as f64 - reference).abs() <= tol) {
